@@ -342,19 +342,35 @@ def check_ns_state_ess(case):
     """ESS property of the standard integral state on its own weights."""
     from nessai.evidence import _NSIntegralState
 
+    import pickle
+
     logL = np.cumsum([abs(_to_float(v)) for v in case["incs"]])
     nlive = int(case["nlive"])
     state = _NSIntegralState(nlive, track_gradients=False)
+    # the effective sample size is a function of the current weights: it is
+    # queried at generated positions during the accumulation (as a callback
+    # or a monitoring user would), optionally followed by a pickle round trip
+    # (checkpoint / resume), and every answer is compared with the Kish ESS
+    # of the weights at that moment
+    queries = set(int(q) % (len(logL) + 1) for q in case.get("queries") or [])
+    queries.add(len(logL))
     try:
         with np.errstate(all="ignore"):
-            for v in logL:
-                state.increment(float(v))
-            w = np.array(state.log_posterior_weights, dtype=float)
-            got = state.effective_n_posterior_samples
+            for j in range(len(logL) + 1):
+                if j in queries and j > 0:
+                    w = np.array(state.log_posterior_weights, dtype=float)
+                    got = state.effective_n_posterior_samples
+                    _check_ess_value(case, got, w, "ns-state:during-accumulation"
+                                     if j < len(logL) else "ns-state")
+                    if case.get("persist"):
+                        state = pickle.loads(pickle.dumps(state))
+                if j < len(logL):
+                    state.increment(float(logL[j]))
+    except Violation:
+        raise
     except Exception as e:
         raise Violation(f"{type(e).__name__}:_NSIntegralState",
                         f"{e!r}", case)
-    _check_ess_value(case, got, w, "ns-state")
 
 
 def check_freq_repeat(case, counter):
@@ -487,8 +503,30 @@ def check_ins_method(case):
     # the two sets carry different weights: the final set reversed
     fin_["logL"] = lw[::-1]
     st_c, st_f = _INSIntegralState(), _INSIntegralState()
+    if case.get("history") and N >= 2:
+        # as in a run: while sampling the state is updated with the discarded
+        # samples and the live points (two interleaved subsets of the sorted
+        # store), and once more with all samples when the run is finalised
+        mask = ((np.arange(N) * 7 + int(case["seed"])) % 3) == 0
+        if mask.all() or not mask.any():
+            mask[0] = not mask[0]
+        st_c.update_evidence(cur[~mask], cur[mask])
     st_c.update_evidence(cur)
     st_f.update_evidence(fin_)
+    # the weights the state reports belong to the samples, row by row
+    with np.errstate(all="ignore"):
+        w_state = np.asarray(st_c.log_posterior_weights, dtype=float)
+        w_rows = (cur["logL"] + cur["logW"]) - float(st_c.log_evidence)
+        same = (w_state == w_rows) | (
+            np.abs(w_state - w_rows) <= 1e-9 * np.maximum(
+                1.0, np.abs(w_rows))) if w_state.shape == w_rows.shape \
+            else None
+    if same is None or not np.all(same):
+        raise Violation(
+            "ins-state:posterior-weights-not-aligned-with-samples",
+            "log_posterior_weights[i] != logL[i] + logW[i] - logZ for the "
+            f"samples the state was last updated with (history="
+            f"{bool(case.get('history'))})", case)
     have_final = bool(case.get("have_final"))
     use_final = bool(case.get("use_final"))
     obj = types.SimpleNamespace(
@@ -661,7 +699,9 @@ def single_cases(draw, max_len):
         incs = draw(st.lists(st.one_of(st.floats(0, 3), st.just(0.0),
                                        st.floats(0, 1e-6)),
                              min_size=1, max_size=200))
-        return {"kind": kind, "nlive": nlive, "incs": incs}
+        return {"kind": kind, "nlive": nlive, "incs": incs,
+                "queries": draw(st.lists(st.integers(0, 400), max_size=3)),
+                "persist": draw(st.booleans())}
     e = draw(st.floats(0, math.log10(max_len)))
     N = draw(st.one_of(st.integers(1, 12), st.integers(2, 80),
                        st.just(max(1, min(max_len, int(round(10 ** e)))))))
@@ -690,6 +730,7 @@ def single_cases(draw, max_len):
     else:
         case["have_final"] = draw(st.booleans())
         case["use_final"] = draw(st.booleans())
+        case["history"] = draw(st.booleans())
     return case
 
 
